@@ -11,20 +11,22 @@ VERIF = os.path.dirname(HERE)
 sys.path.insert(0, HERE)
 import seed_eval  # noqa: E402
 
-SRC = "/tmp/seedout"
+SRC = os.environ.get("SEED_SRC", "/tmp/seedout")
+# round 2 delivers a/ and b/ again: SEED_RENAME="a=c,b=d" files them as <PID>-c, <PID>-d
+RENAME = dict(kv.split("=") for kv in os.environ.get("SEED_RENAME", "").split(",") if kv)
 
 
 def main():
     pids = sys.argv[1:]
     if pids == ["all"]:
-        pids = sorted(d for d in os.listdir(SRC) if os.path.isdir(os.path.join(SRC, d)))
+        pids = sorted(d for d in os.listdir(SRC) if os.path.isdir(os.path.join(SRC, d)) and d[0] == "C" and len(d) == 3)
     head = subprocess.run(["git", "-C", "/repo", "rev-parse", "--short", "HEAD"], capture_output=True, text=True).stdout.strip()
     for pid in pids:
         for x in sorted(os.listdir(os.path.join(SRC, pid))):
             d = os.path.join(SRC, pid, x)
             if not (os.path.isdir(d) and os.path.exists(os.path.join(d, "patch.diff")) and os.path.exists(os.path.join(d, "demo.py"))):
                 continue
-            dst = os.path.join(VERIF, "seeded", f"{pid}-{x}")
+            dst = os.path.join(VERIF, "seeded", f"{pid}-{RENAME.get(x, x)}")
             if os.path.exists(os.path.join(dst, "meta.json")):
                 continue
             os.makedirs(dst, exist_ok=True)
